@@ -382,6 +382,18 @@ func (fr *frame) mkAssignsOK(fc *FuncContract, env *Env) func(key string, ref *T
 			}
 			el := types.Unalias(tv.Ty).Underlying().(*types.Slice).Elem()
 			entries = append(entries, entry{keys: map[string]bool{w.elemHeap(el): true}, ref: SlArr(tv.T)})
+		case strings.HasPrefix(a, "ghost(") && strings.HasSuffix(a, ")"):
+			e, err := parseExpr(a[6 : len(a)-1])
+			if err != nil {
+				fr.vc.errorf("assigns: %v", err)
+				continue
+			}
+			tv, err := env.Compile(e)
+			if err != nil || tv.T == nil || tv.T.Sort != SInt {
+				fr.vc.errorf("assigns: %q: not an object reference (%v)", a, err)
+				continue
+			}
+			entries = append(entries, entry{keys: map[string]bool{"GH:int": true}, ref: tv.T})
 		case strings.HasPrefix(a, "*"):
 			e, err := parseExpr(a[1:])
 			if err != nil {
